@@ -14,7 +14,7 @@ text = ('Each change compiles, keeps the pinned suite green (33 tests incl. doct
         'passes without it; each was confirmed by me in its worktree before being kept (`seeded/<id>/meta.json`: what it breaks, what it\n'
         'needs to manifest, what I ran). "witness" = the contract proof was UNDECIDED after the rewrite (lost anchor / construct outside the\n'
         'rules) or failed, and the native search produced a failing input that replays on the real code.  Seeds -1/-2 are the first round,\n'
-        '-3/-4 a second, -5/-6 a third, -7/-8 a fourth, -9/-10 a fifth and -11/-12 a sixth round by fresh sub-agents after the checks had been strengthened; the recorded outcome is that of the FINAL machinery.\n'
+        '-3/-4 a second, -5/-6 a third, -7/-8 a fourth, -9/-10 a fifth, -11/-12 a sixth and -13/-14 a seventh round by fresh sub-agents after the checks had been strengthened; the recorded outcome is that of the FINAL machinery.\n'
         'First-pass misses and what was strengthened: round 1 - C03-2 (push_null ownership), C17-2 / C08-2 (label ownership), C12-1 (ubjson unit),\n'
         'C13-2 (Frame-level transpose_one contracts), C05-1/2, C16-1/2, C19-1/2, C09-2 (no native fallback yet: c05/c16/c19/c09 oracles added),\n'
         'C02-1 (70000-frame candidates added), C07-2 (C07 now owns the reader-acceptance clause); round 2 - C06-4 (C06 now owns the Game Start\n'
@@ -46,8 +46,20 @@ text = ('Each change compiles, keeps the pinned suite green (33 tests incl. doct
         'C07-11 (the top-level closing brace dropped after a metadata element: the old clause was satisfied by the metadata map\'s own brace - new\n'
         'clause C07.top_level_brace_after_metadata), C04-11 / C09-11 (hint anchors that quoted a constant or sat on a statement the seed moved:\n'
         'prefix anchors and the body-start anchor `^`), C17-12 (C17 now owns gecko_codes).\n'
-        'First-pass detection: round 1 26/40, round 2 37/40, round 3 36/40, round 4 35/40, round 5 37/40, round 6 36/40; 240 of 240 with the final\n'
-        'machinery (`seeded/SELFTEST_final.txt`: replay of the first 160 against the quick checks of that time; `seeded/RUN_LOG5.txt`, `RUN_LOG6.txt`).\n\n'
+        'Round 7 (-13/-14; small local slips again, but the agents were told to AVOID the obvious function and aim at secondary code the property\n'
+        'still depends on - conversions, accessors, trait impls, constants, helpers several calls away, serde attributes): 18 of 40 failed a named\n'
+        'obligation on the first pass, 22 were caught by the native exploration (15 with the contract proof undecided, 7 where the failing clause\n'
+        'belonged to another property\'s ownership or no contract spoke about the change, e.g. a serde `skip_serializing_if` attribute).  First-pass\n'
+        'misses and what was done: C10-14 (HashingReader::seek reading through short hops with a single `read`: the skip-frames oracle now also\n'
+        'reads through seekable readers that return short reads; C10 owns the hash unit\'s seek), C14-14 (leader validity moved up to the port-level\n'
+        'struct: the c14 oracle now requires the enclosing structs to carry no nulls), C15-13 (Frame::len derived from the item offsets: row masks\n'
+        'are now also checked on frames whose last row was opened but never closed), C17-14 (a character-count length prefix for non-ASCII metadata\n'
+        'under C17: C17 now runs the c16 search), C18-13 (end.raw read with a single `read`: the c18 oracle now also reads every archive through\n'
+        '1- and 5-byte reads).  Ownership widened although caught natively: End::size (C01, C17), the immutable row view (C03), the version gates\n'
+        '(C04), the writer\'s payload table (C10).\n'
+        'First-pass detection: round 1 26/40, round 2 37/40, round 3 36/40, round 4 35/40, round 5 37/40, round 6 36/40, round 7 35/40; 280 of 280\n'
+        'with the final machinery (`seeded/SELFTEST_final.txt`: replay of the first 160 against the quick checks of that time;\n'
+        '`seeded/SELFTEST_sample_final.txt`: 60 of those replayed again after round 6, 60 of 60; `seeded/RUN_LOG5.txt`, `RUN_LOG6.txt`, `RUN_LOG7.txt`).\n\n'
         '| Seed | What it breaks | Outcome of the registered check(s) |\n|---|---|---|\n' + '\n'.join(rows) + '\n')
 p = os.path.join(V, 'DESIGN.md')
 s = open(p).read()
